@@ -87,6 +87,9 @@ def dense_matrix(spec):
         M = B @ B.conj().T / n
         if n == 1:
             M = M * 0
+    elif sym == "psd_rank1":
+        B = rnd(n, 1)
+        M = B @ B.conj().T
     elif sym == "zero":
         M = np.zeros((n, n))
     elif sym == "diagm":  # a diagonal matrix (given to cola as an unstructured operator)
